@@ -24,15 +24,22 @@ class WouldBlock(Exception):
     pass
 
 
+class Spin(BaseException):
+    """a loop that makes no progress (the same failing step repeated over and over): it never returns"""
+
+
 class RecLock(object):
-    """non-blocking recording lock: acquiring a held lock is the wedge the property forbids"""
+    """recording lock.  WAIT_S == 0 (single-threaded harnesses): acquiring a held lock is the wedge the property forbids.
+    WAIT_S > 0 (two-thread harness): wait that long for the other thread before calling it a wedge"""
+    WAIT_S = 0
 
     def __init__(self, name):
         self.name = name
         self.held = False
+        self._l = threading.Lock()
 
     def acquire(self, blocking=True, timeout=-1):
-        if self.held:
+        if not (self._l.acquire(timeout=self.WAIT_S) if self.WAIT_S else self._l.acquire(False)):
             raise WouldBlock("lock of %s is still held: this acquire would block forever" % self.name)
         self.held = True
         return True
@@ -41,6 +48,7 @@ class RecLock(object):
         if not self.held:
             raise RuntimeError("release unlocked lock")
         self.held = False
+        self._l.release()
 
     def locked(self):
         return self.held
@@ -60,6 +68,7 @@ class NoiseStub(object):
         self.ready = True
         self.state = "transport"
         self.rs = None
+        self.refusals = 0
 
     def send(self, data):
         if not self.ready:
@@ -67,6 +76,13 @@ class NoiseStub(object):
         self.layer.toLower(SC_cat(b"\x45", data))
 
     def receive(self):
+        if not self.ready:
+            # like the real state machine: the call is refused BEFORE a segment is read
+            self.refusals += 1
+            if self.refusals > 2000:
+                raise Spin("receive() was refused 2000 times in a row for the same queued segment")
+            raise RuntimeError("no transport session: receive is not allowed in this state")
+        self.refusals = 0
         f = self.layer._incoming_segments_queue.get(False)
         if bytes(f).startswith(b"CORRUPT"):
             raise ValueError("decrypt failed (authentication tag mismatch)")
@@ -193,7 +209,8 @@ def _seg(frame):
 
 DOWN_FAULTS = ("unencodable-value", "oversize-frame", "no-transport-session", "socket-write-fails", "interrupted-during-socket-write", "connection-found-dead-during-write")
 SILENT = ("connection-found-dead-during-write",)          # the caller sees no exception: the disconnect is announced by an event instead
-UP_FAULTS = ("undecryptable-frame", "undecodable-frame", "rejected-stanza", "application-callback-raises", "key-request-for-incoming-message-fails-below")
+UP_FAULTS = ("undecryptable-frame", "undecodable-frame", "rejected-stanza", "application-callback-raises", "key-request-for-incoming-message-fails-below",
+             "incoming-frame-while-session-not-ready")
 
 
 def _do_send_ok(top, disp):
@@ -221,7 +238,9 @@ def _do_recv_ok(net, top):
     N = SC.N()
     before = len(top.up)
     net.receive(_seg(_frame(N("presence", {"from": "4915901234567@s.whatsapp.net", "type": "available"}))))
-    return len(top.up) == before + 1
+    # a frame that arrived while the session was not ready is still queued: it is delivered, in order, with the next one
+    late, top.queued_while_not_ready = getattr(top, "queued_while_not_ready", 0), 0
+    return len(top.up) == before + 1 + late
 
 
 def _inject_fault(ctx, kind, st, insts, disp, net, noise, top):
@@ -262,6 +281,16 @@ def _inject_fault(ctx, kind, st, insts, disp, net, noise, top):
             _no_session_manager(ctx, insts)
             disp.fail_next = OSError(32, "Broken pipe")
             net.receive(_seg(_frame(_enc_message("m1"))))
+        elif kind == "incoming-frame-while-session-not-ready":
+            # server data trailing a failed handshake / arriving after the session was reset: the transport refuses to read
+            noise._wa_noiseprotocol.ready = False
+            try:
+                net.receive(_seg(_frame(N("presence", {"from": "4915901234567@s.whatsapp.net", "type": "available"}))))
+            except Spin as e:
+                raise WouldBlock("the noise layer retries the refused read for ever: %s" % e)
+            finally:
+                noise._wa_noiseprotocol.ready = True
+                top.queued_while_not_ready = noise._incoming_segments_queue.qsize()
         elif kind == "undecryptable-frame":
             net.receive(_seg(b"CORRUPT ciphertext whose tag does not verify"))
         elif kind == "undecodable-frame":
@@ -381,6 +410,97 @@ def h_fault(ctx, kind, n_ops):
     return obs
 
 
+class _TimedQueue(object):
+    """the layer's segment queue; a blocking get on an empty queue that nobody will ever fill is reported instead of waited for"""
+
+    def __init__(self, q):
+        self.q = q
+
+    def get(self, block=True, timeout=None):
+        import queue
+        if not block:
+            return self.q.get(False)
+        try:
+            return self.q.get(True, 1.5)
+        except queue.Empty:
+            raise WouldBlock("blocking read of the incoming segment queue although it is empty and nobody will fill it")
+
+    def __getattr__(self, n):
+        return getattr(self.q, n)
+
+
+def h_two_flushers(ctx):
+    """the two real callers of the delivery loop on their two threads: the handshake worker announcing the transport state (one frame was
+    queued during the handshake) and the network thread receiving the next frame.  Schedule (solver's choice): which of them is pre-empted,
+    after how many of its lines inside the noise layer, while the other one runs as far as it can; then the first continues."""
+    import sys
+    st, insts, locks, disp, net, noise, top = build()
+    N = SC.N()
+    stub = noise._wa_noiseprotocol
+    first = ctx.choice("preempted_thread", ["handshake-worker", "network"])
+    k = ctx.choice("preempted_after_lines", list(range(0, 14)))
+    f1 = _seg(_frame(N("presence", {"from": "4915900000001@s.whatsapp.net", "type": "available"})))
+    f2 = _seg(_frame(N("presence", {"from": "4915900000002@s.whatsapp.net", "type": "unavailable"})))
+    stub.state = "handshake"
+    net.receive(f1)                                   # queued: the handshake is still running
+    obs = [("a frame arriving during the handshake is queued, not delivered", len(top.up) == 0)]
+    stub.state = "transport"
+    noise._incoming_segments_queue = _TimedQueue(noise._incoming_segments_queue)
+    RecLock.WAIT_S = 4
+    paused, resume = threading.Event(), threading.Event()
+    errors = {}
+    fname = sys.modules[type(noise).__module__].__file__
+
+    def body(name):
+        if name == "handshake-worker":
+            noise._on_protocol_state_changed("transport")
+        else:
+            net.receive(f2)
+
+    def run(name, gated):
+        seen = [0]
+
+        def tracer(frame, event, arg):
+            if frame.f_code.co_filename != fname:
+                return None
+            if event == "line":
+                if seen[0] == k and not paused.is_set():
+                    paused.set()
+                    resume.wait(6)
+                seen[0] += 1
+            return tracer
+        if gated:
+            sys.settrace(tracer)
+        try:
+            body(name)
+        except BaseException as e:
+            errors[name] = e
+        finally:
+            sys.settrace(None)
+            if gated:
+                paused.set()
+    second = "network" if first == "handshake-worker" else "handshake-worker"
+    t1 = threading.Thread(target=run, args=(first, True), daemon=True)
+    t2 = threading.Thread(target=run, args=(second, False), daemon=True)
+    try:
+        t1.start()
+        paused.wait(6)
+        t2.start()
+        t2.join(0.3)                                  # runs to completion unless it has to wait for the pre-empted thread
+        resume.set()
+        t1.join(12)
+        t2.join(12)
+    finally:
+        RecLock.WAIT_S = 0
+        resume.set()
+    stuck = [n for n, t in ((first, t1), (second, t2)) if t.is_alive()]
+    held = sorted(l.name for l in locks.values() if l.held)
+    obs.append(("both threads return (%s; errors: %s)" % (stuck, {n: repr(e)[:120] for n, e in errors.items()}), not stuck and not errors))
+    obs.append(("no lock stays held (held: %s)" % held, not held))
+    obs.append(("both frames are delivered exactly once (%d deliveries)" % len(top.up), len(top.up) == 2))
+    return obs
+
+
 def finding_key(case, label, values, where):
     kind = case[case.index("[") + 1:case.index(",")] if "," in case else case
     if "lock" not in label and "block" not in label:
@@ -394,4 +514,5 @@ def finding_key(case, label, values, where):
 
 def cases(tier):
     n_ops = 3 if tier == "quick" else 5
-    return [dict(name="fault[%s,ops=%d]" % (k, n_ops), fn=h_fault, args=(k, n_ops), keep_samples=12) for k in DOWN_FAULTS + UP_FAULTS]
+    return [dict(name="fault[%s,ops=%d]" % (k, n_ops), fn=h_fault, args=(k, n_ops), keep_samples=12) for k in DOWN_FAULTS + UP_FAULTS] + \
+           [dict(name="two-flushers[handshake worker + network thread, one pre-emption]", fn=h_two_flushers, keep_samples=40)]
